@@ -13,7 +13,7 @@ def clause_property(verdict, case):
 def check(pid, tier):
     ev = Evidence(pid, tier)
     out_lines, violations, machinery = [], [], []
-    for what, qcap in (("identity", 400), ("nearest", 1500), ("linear", 400)):
+    for what, qcap in (("identity", 400), ("nearest", 1500), ("mesh", None), ("linear", 400)):
         traces, _ = run_fn(pid, ev, violations, machinery, "RegridEmit", "Regrid_Trace", RUNNER, clause_property,
                            "regrid-case", emit_env={"WHAT": what}, cap=qcap if tier == "quick" else None,
                            nontrivial=lambda t: t["case"]["c"]["sm"] or t["case"]["c"]["tm"] or t["case"]["c"]["su"] != "struct")
